@@ -772,6 +772,15 @@ type StrCase struct{ S string }
 func runStr(c *h.Ctx, sc StrCase) {
 	var d did.DID
 	var err error
+	// what the process converted last (the undefined DID printed, another DID parsed and printed) is nothing to the
+	// string at hand
+	switch len(sc.S) % 3 {
+	case 0:
+		_ = did.Undef.String()
+	case 1:
+		_ = keys.Get(keys.Ed25519, 0).DID.String()
+		_, _ = did.Parse(keys.Get(keys.P256, 0).DID.String())
+	}
 	if pn, v, _ := h.Try(func() { d, err = did.Parse(sc.S) }); pn {
 		c.Fail("C16/parse/panic", "Parse(%q) panicked: %v", sc.S, v)
 		return
@@ -1123,7 +1132,7 @@ func TestDecoratedIdentifiers(t *testing.T) {
 			"DID:KEY:" + mb, "Did:Key:" + mb, "did:KEY:" + mb, "did:key:" + strings.ToUpper(mb[:1]) + mb[1:],
 			" " + base, base + " ", base + "\n", base + "\r\n", "\t" + base, base + "\x00", "\ufeff" + base, "did:key: " + mb, "did:key:" + mb[:5] + " " + mb[5:], "did:key:" + mb[:5] + "\n" + mb[5:],
 			"did%3Akey%3A" + mb, "did:key:%7A" + mb[1:], "did:key:" + mb + "%20",
-			"did:key" + mb, "did:" + mb, "did::key:" + mb, "did:key:key:" + mb, "did:keys:" + mb, "did:ke:" + mb, "urn:did:key:" + mb, "did:key:did:key:" + mb,
+			"did:key:z", "did:key:", "did:key:z1", "did:key:z" + mb[1:3], did.Undef.String(), did.Undef.String() + " ", "did:key" + mb, "did:" + mb, "did::key:" + mb, "did:key:key:" + mb, "did:keys:" + mb, "did:ke:" + mb, "urn:did:key:" + mb, "did:key:did:key:" + mb,
 			"<" + base + ">", "\"" + base + "\"", "did:key:" + mb + mb[:1], base + "=", base + "==",
 		}
 		for _, f := range forms {
